@@ -182,8 +182,8 @@ def run(cx):
             a1 = cx.arg(s, 1)
             if match('(itervar (self points))', a1):
                 got['points'] = k
-            elif match('(itervar (unwrap (self normals)))', a1):
-                got['normals'] = k
+            elif match('(itervar (unwrap (self normals)))', a1) or match('(itervar (call Iterator::flatten (call Option::iter_mut (self normals))))', a1):
+                got['normals'] = k      # `if let Some(ns) = &mut self.normals { for n in ns {..} }` or `self.normals.iter_mut().flatten()` (for loop or desugared for_each)
             else:
                 got[show(a1)[:40]] = k
         # the same element-wise update written as `collection.iter_mut().for_each(|x| *x = transform * *x)`
